@@ -1,7 +1,7 @@
 """C03 - one curve per window, in input order, independent of the other windows.
 
 E2 (joint part): a pool of distinguishable three-component recordings per time step
-(dt in {0.01, 0.02, 0.05}); EVERY list of length 1..4 over the pool (all arrangements of
+(dt in {0.01, 0.02, 0.05, 1/100.4}); EVERY list of length 1..4 over the pool (all arrangements of
 time steps, all permutations, all sub-lists, repeated recordings) x the three
 dissimilar-time-step policies x {geometric mean, single azimuth, RotDpp, azimuthal} is run
 through the real hvsrpy.process() with a fixed FFT length and compared with
@@ -53,10 +53,12 @@ from hvmc.ref import dtpolicy as RP
 
 PROPERTY = "C03"
 
-DTS = [0.01, 0.02, 0.05]
-MEMBERS = 4                          # pool index p = 12 * (index of scale) + 4 * (index of dt) + member
-BASE_POOL = 12                       # = len(DTS) * MEMBERS
-SCALES = [1.0, 1e9, 1e-9]            # amplitude factor of pool member p: SCALES[p // 12]
+# the fourth time step is a sampling rate of 100.4 Hz: it rounds to the same whole rate as 0.01 s, gives the same
+# sample counts and FFT lengths, and a frequency axis that is 0.4 % off
+DTS = [0.01, 0.02, 0.05, 1 / 100.4]
+MEMBERS = 4                          # pool index p = 16 * (index of scale) + 4 * (index of dt) + member
+BASE_POOL = len(DTS) * MEMBERS       # 16
+SCALES = [1.0, 1e9, 1e-9]            # amplitude factor of pool member p: SCALES[p // 16]
 L_NOPAD = 64
 L_VARIED = [64, 48, 33, 57]          # length of pool member p in the padded families: [(d + m) % 4]
 POLICIES = list(RP.POLICIES)
@@ -125,7 +127,7 @@ def pool_len(p, varied):
 
 def pristine(p, varied):
     """(ns, ew, vt) of pool member p: broadband, pairwise different, never modified.
-    p >= 12: the arrays of member p % 12 multiplied by SCALES[p // 12]."""
+    p >= 16: the arrays of member p % 16 multiplied by SCALES[p // 16]."""
     key = (p, varied)
     if key not in _PRISTINE and p >= BASE_POOL:
         c = pool_scale(p)
@@ -274,8 +276,8 @@ def judge(ctx, root, family, kind, policy, fcsname, ids, res, variant=""):
                   variant=variant or "fresh-objects",
                   lengths=[pool_len(p, FAMILIES[family]["varied"]) for p in ids],
                   fft_settings=repr(FAMILIES[family]["fft"]()), smoothing=list(FAMILIES[family]["smoothing"]),
-                  how="recordings = hvmc.checks.c03.build_list(pool_indices, varied=%r) (member p %% 12 of the "
-                      "pool times amplitude scale SCALES[p // 12]); settings = "
+                  how="recordings = hvmc.checks.c03.build_list(pool_indices, varied=%r) (member p %% 16 of the "
+                      "pool times amplitude scale SCALES[p // 16]); settings = "
                       "family_settings(family, kind, policy, fcs name)" % FAMILIES[family]["varied"])
     cands = RP.retained_candidates(dts, policy)
     decisions = [RP.nyquist_decision([dts[i] for i in c], fcs) for c in cands]
@@ -515,6 +517,11 @@ def plan(tier):
                    pool=[_scaled(0, 1), _scaled(1, 2), _scaled(8, 1), _scaled(9, 2)] +
                         ([] if q else [_scaled(0, 2), 2]),
                    fcs=["low"], groups=[[1, 2, 3]] if q else [[1, 2, 3], [4]]),
+        # two sampling rates that round to the same whole number (100 and 100.4 Hz), equal sample counts
+        nearrate=dict(family="nopad", kinds=TD3 if q else list(KINDS), pool=_pool([0, 3], [0, 1]), fcs=["low"],
+                      groups=[[1, 2, 3]]),
+        nearrate_dflt=dict(family="default", kinds=["geometric_mean"] if q else TD3, pool=_pool([0, 3], [0]),
+                           fcs=["low"], groups=[[1, 2, 3]]),
         dflt=dict(family="default", kinds=TD3 if q else list(KINDS), pool=_pool([0, 2] if q else [0, 1, 2], [0, 1]),
                   fcs=["low"], groups=[[1, 2, 3]] if q else [[1, 2, 3], [4]]),
         hist=dict(kinds=["geometric_mean", "single_azimuth"] if q else list(KINDS), pool=_pool([0, 1, 2], [0]),
